@@ -336,7 +336,8 @@ def roundtrip(acc, part, kind, moltype, names, seqs, width, fmt, suffix, deep=Tr
     acc.case(case, nontrivial=any(seqs))
     want = [(expected_name(fmt, n), s) for n, s in zip(names, seqs)]
     data = dict(zip(names, seqs))
-    path = _tmp(f"x.{fmt}{suffix}")
+    # compressed targets get a name with one more dot in it (a version tag): format and compression are the last two suffixes
+    path = _tmp(f"x.v2.{fmt}{suffix}" if suffix else f"x.{fmt}")
     if os.path.exists(path):
         os.remove(path)
 
@@ -689,6 +690,37 @@ def strings_upto(alphabet, n):
             yield "".join(t)
 
 
+def check_formatters_twice(acc):
+    """the module-level formatters called directly, twice in one process, without an order: the second call writes its
+    own records in its own order (nothing is kept from the first call, and the caller's arguments are not changed)"""
+    from cogent3.format import fasta as ffasta, gde as fgde, paml as fpaml, phylip as fphylip
+
+    fns = {"fasta": ffasta.alignment_to_fasta, "gde": fgde.alignment_to_gde, "paml": fpaml.alignment_to_paml, "phylip": fphylip.alignment_to_phylip}
+    firsts = [{"s1": "ACGT", "s2": "TTGA"}, {"b": "AC", "a": "GT", "c": "TT"}]
+    seconds = [{"s2": "CCGA", "s1": "ACGA"}, {"x": "AAAA", "y": "CCCC"}, {"q": "AC", "p": "GT", "r": "TA"}]
+    for fmt, fn in fns.items():
+        for d1 in firsts:
+            for d2 in seconds:
+                for given in ("omitted", "empty list"):
+                    case = {"part": "formatters", "fmt": fmt, "first": d1, "second": d2, "order": given}
+                    acc.case(case)
+                    try:
+                        want = fn(dict(d2), order=list(d2))
+                        fn(dict(d1)) if given == "omitted" else fn(dict(d1), order=[])
+                        mine = []
+                        arg = dict(d2)
+                        got = fn(arg) if given == "omitted" else fn(arg, order=mine)
+                    except Exception as e:  # noqa: BLE001
+                        acc.fail(f"{fmt} formatter called a second time without an order: raised {type(e).__name__}", case, {"error": str(e)[:200]})
+                        continue
+                    acc.outcome((fmt, "twice", got == want))
+                    if got != want:
+                        acc.fail(f"{fmt} formatter called a second time without an order: output differs from the same call with the order given", case, {"got": got[:200], "want": want[:200]})
+                    elif arg != d2 or list(arg) != list(d2) or mine:
+                        acc.fail(f"{fmt} formatter changed an argument of its caller", case, {"dict": arg, "order": mine})
+    acc.sample({"formatters called twice": sorted(fns)}, "formatters")
+
+
 def shards(tier, seed):
     b = bounds(tier)
     out = []
@@ -724,6 +756,7 @@ def shards(tier, seed):
         nch = 1 if n < 6 else (4 if n < 8 else 16)
         for c in range(nch):
             out.append({"part": "lines", "n": n, "chunk": c, "of": nch})
+    out.append({"part": "formatters"})
     out.append({"part": "genbank", "k": 1})
     if b["genbank_records"] >= 2:
         out.append({"part": "genbank", "k": 2})
@@ -816,6 +849,8 @@ def run_shard(spec, acc):
                     pass
                 chunk_sweep(acc, path, text, {"part": "lines", "text": text, "suffix": suffix})
         acc.sample({"lines_text_length": n, "alphabet": ["a", "LF", "CR"], "suffixes": SUFFIXES}, "lines")
+    elif part == "formatters":
+        check_formatters_twice(acc)
     elif part == "genbank":
         k = spec["k"]
         for eol in ("\n", "\r\n"):
@@ -840,6 +875,8 @@ def replay(case):
     if part == "grammar":
         recs = [(r[0], r[1], list(r[2])) for r in case["recs"]]
         check_grammar_text(acc, recs, tuple(case["opt"]), case.get("sweep", False))
+    elif part == "formatters":
+        check_formatters_twice(acc)
     elif part == "genbank":
         check_genbank(acc, [tuple(r) for r in case["recs"]], case["eol"], case["final_newline"])
     elif part == "lines":
